@@ -8,6 +8,14 @@
  *   (so a shape-valid seed stays canonical for EVERY mask);
  *   pass_norm, mask and poly wiped through the injected memzero; nothing else called; password unchanged. */
 #include "contracts/prelude.h"
+/* assertions that depend on the woven exit recording (C16); when the woven text no longer fits the function
+   (refactored locals) the unit is re-run without it (-DVERIF_NOWEAVE): those assertions are then undecided,
+   every other clause of the contract is still checked */
+#ifdef VERIF_NOWEAVE
+#define XA(c, m) ((void)0)
+#else
+#define XA(c, m) __CPROVER_assert(c, m)
+#endif
 #include "contracts/ghost_str.h"
 #include "src/features.c"
 #include "src/polyseed.c"
@@ -71,15 +79,15 @@ void harness(void) {
     for (int i = 0; i < 8; ++i) __CPROVER_assert(pw[i] == pw_snap[i], "crypt: password unchanged");
     __CPROVER_assert(other.birthday == other_snap.birthday && other.features == other_snap.features && other.checksum == other_snap.checksum
         && spec_eq_bytes32x(other.secret, other_snap.secret), "crypt: another seed is not affected");
-    __CPROVER_assert(g_x_exits == 1 && g_x_pass.zero && g_x_mask.zero && g_x_poly.zero, "crypt (C16): pass_norm, mask and poly are all-zero on exit");
+    XA(g_x_exits == 1 && g_x_pass.zero && g_x_mask.zero && g_x_poly.zero, "crypt (C16): pass_norm, mask and poly are all-zero on exit");
     _Bool l1 = 0, l2 = 0, l3 = 0;
     for (unsigned i = 0; i < G_MZ_MAX; ++i) if (i < g_mz_count) {
         if (g_mz_ptr[i] == g_x_pass.addr && g_mz_len[i] == g_x_pass.size) l1 = 1;
         if (g_mz_ptr[i] == g_x_mask.addr && g_mz_len[i] == g_x_mask.size) l2 = 1;
         if (g_mz_ptr[i] == g_x_poly.addr && g_mz_len[i] == g_x_poly.size) l3 = 1;
     }
-    __CPROVER_assert(l1 && l2 && l3, "crypt (C16): each temporary was wiped through the injected memzero with its full size");
-    __CPROVER_assert(g_kdf_key == (uint8_t*)g_x_mask.addr, "crypt: the KDF writes the local mask buffer");
+    XA(l1 && l2 && l3, "crypt (C16): each temporary was wiped through the injected memzero with its full size");
+    XA(g_kdf_key == (uint8_t*)g_x_mask.addr, "crypt: the KDF writes the local mask buffer");
     __CPROVER_assert(g_alloc_calls == 0 && g_free_calls == 0 && g_rand_calls == 0 && g_time_calls == 0 && g_nfc_calls == 0,
         "crypt: no allocator, randomness, clock or NFC");
 }
